@@ -658,6 +658,13 @@ class Stmts:
                 n = as_i(nv.term)
                 res.append((s1, {"n": z3.If(n < 0, 0, n), "elem": lambda ss, j: SV(mk_int(j), T.INT), "live": None}))
             return res
+        if isinstance(it, ast.Call) and isinstance(it.func, ast.Name) and it.func.id == "range" and len(it.args) == 2 and not it.keywords:
+            res = []
+            for s1, av in self.ev(it.args[0], st):
+                for s2, bv in self.ev(it.args[1], s1):
+                    a, b = as_i(av.term), as_i(bv.term)
+                    res.append((s2, {"n": z3.If(b - a < 0, 0, b - a), "elem": lambda ss, j, a=a: SV(mk_int(a + j), T.INT), "live": None}))
+            return res
         mode = "plain"
         base = it
         if isinstance(it, ast.Call) and isinstance(it.func, ast.Attribute) and it.func.attr in ("items", "values", "keys") and not it.args:
